@@ -8,6 +8,7 @@
 //!
 //! request : {"cmd":"c11.run","cases":[{"mode":"direct"|"cpu","cfg":[step..],"sent":[addr..],"ops":[op..]}]}
 //!   step  : ["mirror",bool] | ["fill",k] | ["slice",start,len,k] | ["pce500_map"] | ["rom_window",len,k]
+//!           | ["sys_image",len,k]  load_pce500_system_image (cpu) / .._into_memory + configure map (direct)
 //!           | ["ro",[[s,e]..]] | ["card",size,k] | ["slot",bool] | ["ram_ovl",start,size,name]
 //!           | ["rom_ovl",start,size,k,name]
 //!           | ["card_raw",len,k]  load_memory_card with an image of ANY length; the Result is ignored (the
@@ -24,6 +25,7 @@ use crate::util::err;
 use sc62015_core::memory::MemoryImage;
 use sc62015_core::pce500::{
     configure_pce500_memory_map, load_pce500_rom_window, load_pce500_rom_window_into_memory,
+    load_pce500_system_image, load_pce500_system_image_into_memory,
 };
 use sc62015_core::CoreRuntime;
 use serde_json::{json, Value};
@@ -91,6 +93,20 @@ fn apply_step(t: &mut Target, step: &Value) -> Result<(), String> {
                     configure_pce500_memory_map(m);
                 }
                 Target::Cpu(rt) => load_pce500_rom_window(rt, &data).map_err(|e| e.to_string())?,
+            }
+        }
+        "sys_image" => {
+            // image of `len` bytes handed to the system-image entry point; pattern indexed by final address
+            // (>= 1 MiB: byte i is address i; shorter: the image ends at 0xFFFFF)
+            let len = u(&a[1]) as usize;
+            let base = if len >= 0x100000 { 0 } else { 0x100000u32.wrapping_sub(len as u32) };
+            let data = pat_vec(u(&a[2]) as u32, base, len);
+            match t {
+                Target::Direct(m) => {
+                    load_pce500_system_image_into_memory(m, &data);
+                    configure_pce500_memory_map(m);
+                }
+                Target::Cpu(rt) => load_pce500_system_image(rt, &data).map_err(|e| e.to_string())?,
             }
         }
         "ro" => {
